@@ -45,6 +45,8 @@ Definition vrecv (s : state) (c : N) : list N := objs_of (f_items (c_recv (gc s 
 Definition vhold (s : state) (c : N) : list N :=
   match c_hold (gc s c) with Some (IMsg o) => [o] | _ => [] end.
 Definition vheld (s : state) (c : N) : list N := map fst (c_held (gc s c)).
+Definition vxhold (s : state) (k : N) : list N :=
+  match x_hold (gx s k) with Some (IMsg o) => [o] | _ => [] end.
 Definition vpend (s : state) : list (N * N) := map (fun x => (fst x, p_obj (snd x))) (s_pend s).
 
 Definition occurs (s : state) (o : N) (pl : place) : Prop :=
@@ -55,6 +57,7 @@ Definition occurs (s : state) (o : N) (pl : place) : Prop :=
   | PRecv c => In o (vrecv s c)
   | PHeld c => In o (vheld s c)
   | PPend p => In (p, o) (vpend s)
+  | PXHold k => In o (vxhold s k)
   end.
 
 (** each object is referenced from at most one place, and the ghost field says which *)
